@@ -5,7 +5,7 @@
 From Coq Require Import List String NArith Bool Arith Lia.
 From Coq Require Import Strings.Byte.
 From YVGen Require Import ErrKinds UnwindArms.
-From YV Require Import Scanner Parser ParseRun Bytecode Skeleton Verifier VerifierProofs Lines LinesSpec LinesProofs ErrLang ErrLang2 ParserInv.
+From YV Require Import Scanner Parser ParseRun Bytecode Skeleton Verifier VerifierProofs Lines LinesSpec LinesProofs ErrLang ErrLang2 ErrLang3 ErrLang3Proofs ParserInv.
 Import ListNotations.
 
 (* the mechanism model instantiated with the shape of today's unwind_stack / try_handle_error / call_native *)
@@ -22,7 +22,8 @@ Theorem C17_side_shape :
   unhandled_names_instance_class = true /\ error_at_uses_token_line = true /\
   emit_byte_uses_previous_line = true /\
   dispatch_errors_go_through_handlers = true /\
-  line_types_wide = true.
+  line_types_wide = true /\
+  scanner_counts_every_newline = true.
 Proof. repeat split; reflexivity. Qed.
 (* a catch clause clears the error position, or every way of raising an exception overwrites it *)
 Theorem C17_side_clear : clear_on_catch fl = true \/ records_all fl = true.
@@ -55,6 +56,30 @@ Proof. vm_compute; reflexivity. Qed.
    places where the second one is raised *)
 Theorem C17_errlang2_directed_examples : forallb agree2b directed_examples2 = true.
 Proof. vm_compute; reflexivity. Qed.
+
+(* the same for the recursion family (ErrLang3.v): several activations of ONE function on the stack, per-level and
+   uniform layouts, every kind of recursive callee (function, method, lambda, through a second function) *)
+Theorem C17_errlang3_directed_examples : forallb agree3b directed_examples3 = true.
+Proof. vm_compute; reflexivity. Qed.
+(* unwind_stack must COUNT frames to know that the raising activation is being discarded: the variant that asks whether
+   the recorded position lies in the handling frame's function names a line of a dead activation as soon as a function
+   has two activations on the stack (witness: script -> r -> r -> r, throw at line 3, try/finally around the call at
+   line 6); the mechanism with today's flags gives the Spec's trace on the same history *)
+Theorem C17_rebase_by_owner_refuted :
+  wf_ops (sinit (fd_script witness3)) witness3_ops = true /\
+  s_raised (srun (sinit (fd_script witness3)) witness3_ops) = true /\
+  spec_uncaught (srun (sinit (fd_script witness3)) witness3_ops) = Some [("main", 6%N, "r"); ("main", 12%N, "")]%string /\
+  muncaught (mrun fl_all (init_vm (fd_script witness3)) witness3_ops) = Some [("main", 6%N, "r"); ("main", 12%N, "")]%string /\
+  muncaught (o_vm (mrun_own fl_all (init_vmo (fd_script witness3)) witness3_ops)) = Some [("main", 3%N, "r"); ("main", 12%N, "")]%string.
+Proof. exact rebase_by_owner_refuted. Qed.
+(* ... and the two tests are the same machine on every single-fiber history in which no function ever has two
+   activations on the stack: recursion is exactly the class of programs on which they differ (partial: fibers) *)
+Theorem C17_rebase_by_owner_agrees_without_recursion_partial : forall fl0 fd0 ops,
+  records_all fl0 = true -> rebase_on_drop fl0 = true ->
+  wf_ops (sinit fd0) ops = true -> no_fiber_ops ops = true ->
+  distinct_along fl0 (init_vm fd0) ops = true ->
+  o_vm (mrun_own fl0 (init_vmo fd0) ops) = mrun fl0 (init_vm fd0) ops.
+Proof. exact rebase_by_owner_agrees_without_recursion_partial. Qed.
 
 (* --- ErrorKind -> class -> ErrorKind is the identity on every kind a running program can produce --- *)
 Theorem C17_kind_class_roundtrip : forall k,
@@ -169,6 +194,9 @@ Print Assumptions C17_known_class_empty.
 Print Assumptions C17_error_ip_scoped_general.
 Print Assumptions C17_errlang_directed_examples.
 Print Assumptions C17_errlang2_directed_examples.
+Print Assumptions C17_errlang3_directed_examples.
+Print Assumptions C17_rebase_by_owner_refuted.
+Print Assumptions C17_rebase_by_owner_agrees_without_recursion_partial.
 Print Assumptions C17_side_formats.
 Print Assumptions C17_side_roundtrip.
 Print Assumptions C17_side_kinds_complete.
